@@ -77,6 +77,11 @@ pub struct Case {
     /// that request is answered; every request it names must still get its complete response
     #[serde(default)]
     pub backend_goaway: bool,
+    /// every response carries this many header fields with names no other response uses (about 75 octets of
+    /// HPACK table each): together more than the default 4096-octet dynamic table, so that a peer that
+    /// advertised a larger SETTINGS_HEADER_TABLE_SIZE only keeps decoding if sozu signals the size it uses
+    #[serde(default)]
+    pub resp_unique_headers: u8,
 }
 
 /// Known finding (frame storm): sozu's session loop gives up after 10 000 iterations of one readiness
@@ -167,6 +172,8 @@ fn frames() -> impl Strategy<Value = Vec<usize>> {
     prop_oneof![
         2 => Just(vec![]),
         3 => prop::collection::vec(prop_oneof![Just(1usize), Just(9), 1usize..100, 100usize..16384, Just(16384), Just(16385)], 1..5),
+        // with an empty DATA frame (padding only when the stream pads) between two frames of the body
+        1 => prop::collection::vec(prop_oneof![2 => Just(0usize), 1 => Just(1usize), 3 => 1usize..3000, 1 => Just(16384usize)], 2..5),
     ]
 }
 
@@ -232,7 +239,10 @@ pub fn strategy(flow_focus: bool, max: usize, max_streams: usize) -> impl Strate
             if mode == 1 || mode == 3 {
                 make_generous(&mut client, biggest_resp);
             }
-            Case { seed, backend_h2, client, backend, streams, strict: false, slow_settings: if backend_h2 && many.is_none() { slow_settings } else { None }, client_read_pause, backend_goaway: backend_h2 && seed % 7 == 0 && many.is_none() }
+            // a client that advertised a header table above the default gets, in half of the cases, responses
+            // whose new field names overflow a 4096-octet table (70+ names over the connection)
+            let resp_unique_headers = if client.header_table > 4096 && many.is_none() && client_read_pause.is_none() && (seed >> 11) % 2 == 0 { (70 / streams.len().max(1) + 1) as u8 } else { 0 };
+            Case { seed, backend_h2, client, backend, streams, strict: false, slow_settings: if backend_h2 && many.is_none() { slow_settings } else { None }, client_read_pause, backend_goaway: backend_h2 && seed % 7 == 0 && many.is_none(), resp_unique_headers }
         },
     )
 }
@@ -364,16 +374,23 @@ fn scenario_inner(lab: &mut H2Lab, case: &Case, tag: &str) -> CheckResult {
     h2s.settings_delay_ms = case.slow_settings.map(|(d, _)| d as u64).unwrap_or(0);
     h2s.goaway_before_req = if case.backend_goaway && case.backend_h2 { Some(case.streams.len() - 1) } else { None };
     h2s.grants = case.backend.grants.iter().map(|(d, t, inc)| (*d as u64, if *t == 0 { 0 } else { u32::MAX }, *inc)).collect();
+    let resp_headers = |i: usize| -> Vec<(String, String)> {
+        let mut v = vec![("x-lab-resp".to_string(), i.to_string())];
+        for j in 0..case.resp_unique_headers {
+            v.push((format!("x-u{i}-{j:02}"), format!("value-{i}-{j:02}-0123456789abcdefghijklmnop")));
+        }
+        v
+    };
     for (i, s) in case.streams.iter().enumerate() {
         let body = content(case.seed ^ (0xA000 + i as u64), s.resp_len);
         if case.backend_h2 {
-            h2s.actions.insert(i, H2Action { status: 200, headers: vec![("x-lab-resp".into(), i.to_string())], body, frame_sizes: capped(&s.resp_frames, s.resp_len, case.streams.len(), case.strict).0, pad: s.resp_pad, trailers: vec![], reset: None });
+            h2s.actions.insert(i, H2Action { status: 200, headers: resp_headers(i), body, frame_sizes: capped(&s.resp_frames, s.resp_len, case.streams.len(), case.strict).0, pad: s.resp_pad, trailers: vec![], reset: None });
         } else {
             h1_actions.insert(
                 i,
                 BackendAction::Respond {
                     status: 200,
-                    headers: vec![("x-lab-resp".into(), i.to_string())],
+                    headers: resp_headers(i),
                     body_seed: case.seed ^ (0xA000 + i as u64),
                     body_len: s.resp_len,
                     framing: if s.resp_frames.is_empty() { BodyFraming::ContentLength } else { BodyFraming::Chunked(s.resp_frames.clone()) },
@@ -619,6 +636,9 @@ fn scenario_inner(lab: &mut H2Lab, case: &Case, tag: &str) -> CheckResult {
     rep.class_if(boundary, "size_within_9_of_a_boundary");
     rep.class_if(case.client.resettle.is_some() || case.backend.resettle.is_some(), "mid_connection_settings");
     rep.class_if(case.streams.iter().any(|s| s.req_pad.is_some() || s.resp_pad.is_some()), "padded_data");
+    rep.class_if(case.resp_unique_headers > 0, "response_field_names_overflow_default_hpack_table");
+    rep.class_if(case.streams.iter().any(|s| (s.req_len > 1 && s.req_frames.contains(&0)) || (case.backend_h2 && s.resp_len > 1 && s.resp_frames.contains(&0))), "empty_data_frame_inside_body");
+    rep.class_if(case.streams.iter().any(|s| (s.req_len > 1 && s.req_frames.contains(&0) && s.req_pad.is_some()) || (case.backend_h2 && s.resp_len > 1 && s.resp_frames.contains(&0) && s.resp_pad.is_some())), "padding_only_data_frame_inside_body");
     rep.class_if(case.backend.max_concurrent.is_some() && case.backend_h2, "backend_max_concurrent_streams_set");
     rep.class_if(case.client.max_frame > 16384 || case.backend.max_frame > 16384, "max_frame_size_above_default");
     rep.inner_evaluations = case.streams.len() as u64;
